@@ -139,6 +139,11 @@ PARAM_TYPES = {
     ("pyformlang.fst.fst.FST.union", "other_fst"): [FST],
     ("pyformlang.fst.fst.FST.concatenate", "other_fst"): [FST],
     ("pyformlang.rsa.box.Box.__init__", "enfa"): [ENFA],
+    (DFA + ".is_equivalent_to", "other"): [FABASE],
+    (FABASE + ".is_equivalent_to", "other"): [FABASE],
+    (DFA + "._is_equivalent_to_minimal", "self_minimal"): [DFA],
+    (DFA + "._is_equivalent_to_minimal", "other_minimal"): [DFA],
+    (FABASE + ".__eq__", "other"): [FABASE],
 }
 
 
@@ -207,7 +212,18 @@ def _hook_delta(interp, fi, recv, args, kwargs, res, ev):
         return res
     res = res.with_deps(tags)
     if res.elem is not None:
-        res = replace(res, elem=res.elem.with_deps(tags))
+        el = res.elem.with_deps(tags)
+        owners = {tg[1] for tg in tags}
+        # edge tuples: (symbol, target) for items() / get_transitions_from, (source, symbol, target) for get_edges
+        if el.items is not None and len(el.items) in (2, 3):
+            items = list(el.items)
+            off = len(items) - 2
+            items[off] = items[off].with_deps({("EDGE_SYMBOL", o) for o in owners})
+            items[off + 1] = items[off + 1].with_deps({("EDGE_TARGET", o) for o in owners})
+            if off:
+                items[0] = items[0].with_deps({("EDGE_SOURCE", o) for o in owners})
+            el = replace(el, items=tuple(items))
+        res = replace(res, elem=el)
     return res
 
 
